@@ -153,6 +153,30 @@ theorem idxN_ge {α : Type} (s : List α) (i : Nat) (h : s.length ≤ i) :
     idxN s i = .panic := by
   simp [idxN, h]
 
+/-- `s[i]` at a natural-number index (what `int(x)` of an unsigned `x` gives): no sign check left. -/
+theorem idx_natCast {α : Type} (s : List α) (n : Nat) :
+    idx s (n : Int) = match s[n]? with | some a => .ok a | none => .panic := by
+  have h : ¬ ((n : Int) < 0) := by omega
+  simp [idx, h]
+
+theorem setIdx_natCast {α : Type} (s : List α) (n : Nat) (v : α) :
+    setIdx s (n : Int) v = if n < s.length then .ok (s.set n v) else .panic := by
+  have h : ¬ ((n : Int) < 0) := by omega
+  simp [setIdx, h]
+
+theorem slice_natCast {α : Type} (s : List α) (a b : Nat) :
+    slice s (a : Int) (b : Int) = if b < a ∨ s.length < b then .panic else .ok ((s.take b).drop a) := by
+  have h : ¬ ((a : Int) < 0) := by omega
+  simp only [slice, h, false_or, Int.toNat_natCast]
+  congr 1
+  apply propext
+  omega
+
+theorem makeSlice_natCast {α : Type} (z : α) (n : Nat) :
+    makeSlice z (n : Int) = .ok (List.replicate n z) := by
+  have h : ¬ ((n : Int) < 0) := by omega
+  simp [makeSlice, h]
+
 /-! ### `math/bits` -/
 
 /-- number of bits needed to write `n` (0 for 0). -/
@@ -180,6 +204,78 @@ def bitsOnesCount32 (x : BitVec 32) : Int := (popCount 32 x.toNat : Nat)
 def bitsTrailingZeros64 (x : BitVec 64) : Int := (trailingZeros 64 x.toNat : Nat)
 /-- `bits.TrailingZeros32` (32 for 0). -/
 def bitsTrailingZeros32 (x : BitVec 32) : Int := (trailingZeros 32 x.toNat : Nat)
+
+/-! ### `copy` -/
+
+/-- `copy(dst, src)`: the updated `dst` and the number of elements copied, `min (len dst) (len src)`
+(the source is a VALUE here: Go's `copy` is a memmove, so an overlapping source reads as it was
+before the call). -/
+def copySlice {α : Type} (dst src : List α) : List α × Int :=
+  (src.take dst.length ++ dst.drop src.length, Int.ofNat (min dst.length src.length))
+
+/-- `copy(dst[a:b], src)` writing through into `dst`: panics like the slice expression `dst[a:b]`,
+otherwise the window `dst[a:b]` is overwritten from its start; the length of `dst` is unchanged. -/
+def copyAt {α : Type} (dst : List α) (a b : Int) (src : List α) : Res (List α × Int) :=
+  if a < 0 ∨ b < a ∨ (dst.length : Int) < b then .panic
+  else
+    let w := copySlice ((dst.take b.toNat).drop a.toNat) src
+    .ok (dst.take a.toNat ++ w.1 ++ dst.drop b.toNat, w.2)
+
+theorem copySlice_length {α : Type} (dst src : List α) : (copySlice dst src).1.length = dst.length := by
+  simp only [copySlice, List.length_append, List.length_take, List.length_drop]
+  omega
+
+theorem copySlice_count {α : Type} (dst src : List α) :
+    (copySlice dst src).2 = Int.ofNat (min dst.length src.length) := rfl
+
+theorem copyAt_natCast {α : Type} (dst : List α) (a b : Nat) (src : List α) :
+    copyAt dst (a : Int) (b : Int) src =
+      if b < a ∨ dst.length < b then .panic
+      else .ok (dst.take a ++ (copySlice ((dst.take b).drop a) src).1 ++ dst.drop b,
+                (copySlice ((dst.take b).drop a) src).2) := by
+  have h : ¬ ((a : Int) < 0) := by omega
+  have e : ((b : Int) < (a : Int) ∨ (dst.length : Int) < (b : Int)) = (b < a ∨ dst.length < b) := by
+    apply propext; omega
+  simp only [copyAt, h, false_or, Int.toNat_natCast, e]
+
+/-! ### `error` values
+
+An `error` is modelled by its CLASS: `nil`, or `mk cls args` where `cls` is the constant format
+string of the `fmt.Errorf`/`errors.New` call that made it, or `"<import path>.<Name>"` for a
+package-level error variable (`encoding/hex.ErrLength`; ASSUMED never reassigned), and `args` are
+the integer-typed arguments of the `Errorf` call in order (arguments of other types are evaluated,
+for their panics, and dropped).  The message text is not modelled; only comparisons with `nil`
+are translated. -/
+inductive Err where
+  | nil
+  | mk (cls : String) (args : List Int)
+deriving Repr, DecidableEq
+
+instance : Inhabited Err := ⟨.nil⟩
+
+def Err.isNil : Err → Bool
+  | .nil => true
+  | .mk _ _ => false
+
+/-! ### callback menus of the execution path (`trans-diff`): the same small menus exist on the Go
+side (`transrt.CmpMenu`, `transrt.SwapMenu`), selected by one extra integer argument. -/
+
+/-- comparators on `int`: 0 `<`, 1 `>`, 2 `≤`, 3 `==`, 4 constant false, otherwise constant true. -/
+def cmpMenuInt (k : Int) (a b : Int) : Bool :=
+  if k = 0 then decide (a < b) else if k = 1 then decide (a > b) else if k = 2 then decide (a ≤ b)
+  else if k = 3 then a == b else if k = 4 then false else true
+
+/-- `swap` callbacks: 0 `s[i], s[j] = s[j], s[i]`, 1 no-op, otherwise `s[i] = s[j]`. -/
+def swapMenu {α : Type} (k : Int) (s : List α) (i j : Int) : Res (List α) :=
+  if k = 0 then do
+    let a ← idx s j
+    let b ← idx s i
+    let s1 ← setIdx s i a
+    setIdx s1 j b
+  else if k = 1 then .ok s
+  else do
+    let a ← idx s j
+    setIdx s i a
 
 /-! ### line protocol (execution path `trans <func> <args…>` of the oracle) -/
 
@@ -239,5 +335,15 @@ def parseBytes (s : String) : Option (List (BitVec 8)) :=
 
 def parseList {α : Type} (p : String → Option α) (s : String) : Option (List α) :=
   if s = "-" then some [] else (s.splitOn ",").mapM p
+
+def findIdx {α : Type} [DecidableEq α] (x : α) : List α → Nat → Nat
+  | [], n => n
+  | y :: ys, n => if x = y then n else findIdx x ys (n + 1)
+
+/-- an error as `nil` or `err:<k>`, `k` = position of its class in the list of the classes the
+translated function can produce (the Go wrapper prints the positions of all classes that match). -/
+def showErr (classes : List String) : Err → String
+  | .nil => "nil"
+  | .mk c _ => "err:" ++ toString (findIdx c classes 0)
 
 end Golib.GoSem
